@@ -702,6 +702,9 @@ func cmdGen(args []string) {
 			cfg.Skeleton = true
 		case "nestedlists":
 			cfg.NestedLists = true
+		case "chain":
+			cfg.Chain = true
+			cfg.Mutations = false
 		case "nomut":
 			cfg.Mutations = false
 		default:
